@@ -192,7 +192,10 @@ convert_znum(void *dest, void *val, int val_id, int_t offset)
   } else { /* PyNumber */
     Py_complex c = PyComplex_AsCComplex((PyObject *)val);
 #ifndef _MSC_VER
-    *(double complex *)dest = c.real + I*c.imag;
+    /* not c.real + I*c.imag: the product I*c.imag has real part 0*c.imag,
+       which is NaN for an infinite c.imag and loses the sign of -0.0 */
+    ((double *)dest)[0] = c.real;
+    ((double *)dest)[1] = c.imag;
 #else
     *(_Dcomplex *)dest = _Cbuild(c.real,c.imag);
 #endif
